@@ -112,6 +112,20 @@ claim("C13", "proof",
       "source range.",
       "Lean 4 proof (conservation in order) + exhaustive bounded trace comparison on real CFGs", "5 (C13)")
 
+claim("C10", "proof",
+      "Lean 4 theorems (Props/C10.lean) for every well-nested event sequence (any nesting of blocks, any redeclaration pattern, any "
+      "parameter list): the model of ensure_unique_variables (declaration / scoped-version / global-version environments) produces exactly "
+      "the output of lexical resolution with consistent naming — each use gets the suffix of the innermost preceding declaration, parameters "
+      "outermost, and a shadowing report is produced for exactly the declarations that redeclare a visible name with the shadowed "
+      "declaration attached (refinement proved through the invariant 'scoped versions = the versioned entries of the declaration stack'); "
+      "suffixes are injective on declarations of a name; the SSA version key (after the fix) is injective on (name, suffix), with the old "
+      "key's collision kept as a counterexample theorem. Tie: every variable occurrence of generated definitions with heavy shadowing and "
+      "x / x_0 look-alikes: real (name, suffix) in the pre-SSA CFG vs the Lean model on the real AST (L2) and vs lexical resolution "
+      "(same key iff same declaration, L1); CS0001/CS0002 of the real pipeline incl. primary/secondary locations.",
+      "Lean kernel + standard axioms; the flattening of the AST into the event sequence (traversal order of unique_vars.rs) lives in the "
+      "driver and is validated only by the correspondence; correspondence is sampled.",
+      "Lean 4 proof (refinement of the renamer to lexical resolution) + per-occurrence correspondence", "5 (C10)")
+
 ALL = ["C%02d" % i for i in range(1, 21)]
 def main():
     checks = []
